@@ -7,7 +7,8 @@ TmOps == {"add", "sub", "matmul", "mul_tm", "floordiv_tm", "l2g", "g2l", "distan
           "mul_scalar", "rmul_scalar", "div_scalar", "add_scalar", "sub_scalar", "floordiv_scalar", "matmul_array", "add_array6",
           "sub_array6", "tripleUnit", "mirror", "planeFromThreePoints", "getUnitVec", "angleBetween",
           \* neutral-element operands (identity fast paths must not hand back the operand itself)
-          "add_zero", "sub_zero", "mul_one", "rmul_one", "div_one", "add_zero_array"}
+          "add_zero", "sub_zero", "mul_one", "rmul_one", "div_one", "add_zero_array",
+          "tmctor_arr1"}                                \* the other copy-constructor form: a one-element array of a transform
 SwOps == {"add", "sub", "mul_scalar", "rmul_scalar", "div_scalar", "abs", "copy", "getData", "flatten", "reshape", "cross", "dot",
           "add_array6", "sub_array6", "rsub_array6", "add_scalar", "sub_scalar", "matmul_obj", "getitem_scalar",
           "radd_zero", "radd_zero_float", "sum_builtin", "add_zero", "sub_zero", "mul_one", "rmul_one", "div_one", "radd_scalar",
